@@ -52,7 +52,8 @@ AllDeviations == {"ConsentAfterClose",  \* ice.start() ignores that stop() overt
                   "NotIdempotent",      \* second close() signals again
                   "DecoderNotJoined",   \* receiver.stop() leaves the decoder thread
                   "SctpStopGuard",      \* sctp.stop() returns at once when the association already died by itself
-                  "ChanOnClosed"}       \* createDataChannel works on a closed connection (no closed latch check)
+                  "ChanOnClosed",       \* createDataChannel works on a closed connection (no closed latch check)
+                  "StartEventSkipped"}  \* ice.start() interrupted by stop() returns without setting its `started` event
 
 ASSUME Deviations \subseteq AllDeviations /\ DevSel \subseteq AllDeviations \cup {"none"} /\ Levels \subseteq Nat /\ AppChans \subseteq {0, 1}
 ASSUME Users \subseteq {"u1", "u2"}
@@ -272,7 +273,7 @@ CoIceConn(c) ==
            ELSE IF s0.ice[t].st = "closed"
              THEN IF ok   \* stop() overtook connect(): close the aioice connection again
                     THEN st' = [s0 EXCEPT !.conn[t].consent = "cancelled", !.co[c] = [lbl |-> "icefix", k |-> k]]
-                    ELSE st' = CoAfterIce([s0 EXCEPT !.ice[t].done = TRUE], c, k)
+                    ELSE st' = CoAfterIce([s0 EXCEPT !.ice[t].done = ~Dev(st, "StartEventSkipped")], c, k)
            ELSE LET s1 == SetIce(s0, t, IF ok THEN "completed" ELSE "failed")
                 IN st' = CoAfterIce([s1 EXCEPT !.ice[t].done = TRUE], c, k)
   /\ act' = [op |-> "co_iceconn", c |-> c]
@@ -676,6 +677,7 @@ WitPeerGoneFirst  == ~(st.peer = "gone" /\ Closing(st) /\ st.snd.started)
 WitRcvStartedWait == ~(\E k \in K : st.cl[k].lbl = "rcvstarted")
 WitIceFix         == ~(\E c \in C : st.co[c].lbl = "icefix")
 WitLateChannel    == ~(st.chan2 = "connecting" /\ st.sctp.dead /\ st.fut = "none")   \* created after the association died
+WitIceWaitClosing == ~(Closing(st) /\ \E c \in C : st.co[c].lbl = "icewait")     \* a second __connect is parked behind ice.start()
 \* Sensitivity: with DevSel = a set of deviations (and none of the invariants above in the
 \* configuration) every chosen deviation must break one of them somewhere.
 ASSUME \A i \in 20..30 : TLCSet(i, {})
@@ -686,7 +688,7 @@ DevProbe == DevBroken("PostStates", PostStates) /\ DevBroken("NoLateEvent", NoLa
 
 \* Reports the witnesses seen inside an exhaustive run of the other invariants: prints
 \* <<"WITNESS", name>> the first time a worker reaches a state violating the witness.
-ASSUME \A i \in 1..11 : TLCSet(i, 0)
+ASSUME \A i \in 1..12 : TLCSet(i, 0)
 Probe(i, name, violated) == (violated /\ TLCGet(i) = 0) => (TLCSet(i, 1) /\ PrintT(<<"WITNESS", name>>))
 WitnessProbe ==
   /\ Probe(1, "WitCloseAtIceConn", ~WitCloseAtIceConn)
@@ -700,4 +702,5 @@ WitnessProbe ==
   /\ Probe(9, "WitRcvStartedWait", ~WitRcvStartedWait)
   /\ Probe(10, "WitIceFix", ~WitIceFix)
   /\ Probe(11, "WitLateChannel", ~WitLateChannel)
+  /\ Probe(12, "WitIceWaitClosing", ~WitIceWaitClosing)
 =============================================================================
